@@ -21,6 +21,7 @@ ASSUMPTIONS = [
     "move_file's copy+delete fallback is exercised only when /dev/shm is a different device than the temp directory "
     "(cases whose file or pattern lives under xm/); otherwise those cases degrade to ordinary renames",
 ]
+RELEASE_TOO = True          # the sampled cases also run through the release-profile harness (see ./check)
 EXHAUSTIVE = {"quick": False, "thorough": False}
 TRUSTED = ["libc dup2-based stdout silencing in the harness (the crate println!s on a failed final step)"]
 
